@@ -58,6 +58,76 @@ def name_mutations(p: Program, names: set) -> Dict[str, List[str]]:
     return out
 
 
+READ_METHODS = {"get", "items", "keys", "values", "index", "count", "copy", "__contains__", "__getitem__", "__len__", "__iter__",
+                "issubset", "issuperset", "isdisjoint", "union", "intersection", "difference"}
+PURE_CONSUMERS = {"len", "sorted", "tuple", "list", "set", "frozenset", "dict", "any", "all", "enumerate", "zip", "reversed", "iter",
+                  "max", "min", "sum", "map", "filter", "isinstance", "repr", "str", "join", "startswith", "endswith", "chain"}
+
+
+def _read_only_in(tree: ast.AST, name: str, p: Program, depth: int, where: str) -> List[str]:
+    """uses of `name` inside `tree` that are not plain reads (see read_only_uses)"""
+    bad: List[str] = []
+    parents: Dict[int, ast.AST] = {}
+    for n in ast.walk(tree):
+        for c in ast.iter_child_nodes(n):
+            parents[id(c)] = n
+    for n in ast.walk(tree):
+        if not (isinstance(n, ast.Name) and n.id == name and isinstance(n.ctx, ast.Load)):
+            continue
+        par = parents.get(id(n))
+        ok = False
+        if isinstance(par, ast.Subscript) and par.value is n and isinstance(par.ctx, ast.Load):
+            ok = True
+        elif isinstance(par, ast.Compare) and n in par.comparators and all(isinstance(o, (ast.In, ast.NotIn)) for o in par.ops):
+            ok = True
+        elif isinstance(par, (ast.For, ast.comprehension)) and par.iter is n:
+            ok = True
+        elif isinstance(par, ast.Attribute) and par.value is n and par.attr in READ_METHODS:
+            ok = True
+        elif isinstance(par, ast.Call) and n in par.args and _dotted(par.func).split(".")[-1] in PURE_CONSUMERS:
+            ok = True
+        elif isinstance(par, ast.Starred):
+            gp = parents.get(id(par))
+            ok = isinstance(gp, ast.Call) and _dotted(gp.func).split(".")[-1] in PURE_CONSUMERS
+        elif isinstance(par, (ast.JoinedStr, ast.FormattedValue)):
+            ok = True
+        elif depth > 0 and (isinstance(par, ast.keyword) or (isinstance(par, ast.Call) and n in par.args)):
+            # handed to a function of the program: fine if that function only reads the parameter
+            call = parents.get(id(par)) if isinstance(par, ast.keyword) else par
+            if isinstance(call, ast.Call):
+                fname = _dotted(call.func).split(".")[-1]
+                cands = [f for _, f in functions_with_module(p) if f.name == fname]
+                if len(cands) == 1:
+                    f = cands[0]
+                    params = [a.arg for a in f.node.args.args + f.node.args.kwonlyargs]
+                    if isinstance(par, ast.keyword):
+                        pname = par.arg
+                    else:
+                        off = 1 if params and params[0] in ("self", "cls") and isinstance(call.func, ast.Attribute) else 0
+                        i = call.args.index(n) + off
+                        pname = params[i] if i < len(params) else None
+                    if pname in params:
+                        inner = _read_only_in(f.node, pname, p, depth - 1, f.qualname)
+                        ok = not inner
+        if not ok:
+            bad.append(f"{where}:{n.lineno} {type(par).__name__}")
+    return bad
+
+
+def read_only_uses(p: Program, name: str, defining_module: str) -> List[str]:
+    """uses of a module-level name that could let the object be mutated elsewhere (aliasing, escaping as an argument or
+    a return value, being stored); an empty list means every use is a read: X[k], k in X, for .. in X, X.get(..),
+    len(X), tuple(X), s.startswith(X) ..."""
+    bad: List[str] = []
+    for m in p.modules.values():
+        imported = m.name == defining_module or any(
+            isinstance(n, ast.ImportFrom) and any((a.asname or a.name) == name for a in n.names) for n in ast.walk(m.tree))
+        if not imported:
+            continue
+        bad += _read_only_in(m.tree, name, p, 2, m.rel())
+    return bad
+
+
 def global_state(p: Program) -> List[Tuple[str, str, str, str]]:
     """(kind, qualified name, where, detail) of every piece of process-global mutable state"""
     items: List[Tuple[str, str, str, str]] = []
@@ -99,8 +169,14 @@ def global_state(p: Program) -> List[Tuple[str, str, str, str]]:
                                           f"{m.rel()}:{n.lineno}", f"in {f.qualname}"))
     muts = name_mutations(p, set(mod_level) | set(cls_level))
     for name, (mod, v, line) in mod_level.items():
-        items.append(("module-level mutable", f"{mod}.{name}", f"{p.rel(mod)}:{line}",
-                      "mutated: " + "; ".join(muts[name]) if muts[name] else "never mutated"))
+        if not muts[name]:
+            esc = read_only_uses(p, name, mod)
+            if not esc:
+                continue    # a constant table: never mutated, never aliased, never handed to code that could mutate it
+            items.append(("module-level mutable", f"{mod}.{name}", f"{p.rel(mod)}:{line}",
+                          "never mutated by name, but escapes: " + "; ".join(esc[:3])))
+            continue
+        items.append(("module-level mutable", f"{mod}.{name}", f"{p.rel(mod)}:{line}", "mutated: " + "; ".join(muts[name])))
     for name, (cls, v, line) in cls_level.items():
         if muts[name]:
             items.append(("class-level mutable state", f"{cls}.{name}", f"line {line}", "mutated: " + "; ".join(muts[name])))
